@@ -412,25 +412,32 @@ theorem C06_history_limit (g : Nat → GameStep) (sig : Nat → Nat → ℝ) (N 
 example : (0 : ℝ) < 1 / 10000 ∧ (1 / 10000 : ℝ) ≤ 1 ∧ (0 : ℝ) < 25 / 6 := by norm_num
 
 /-- the default gamma `√σ² / c` is admissible -/
-example : GammaOK (GammaFn.dflt : GammaFn ℝ) := gammaOK_of_tag _ (by intro x h; cases h)
+example : GammaOK (GammaFn.dflt : GammaFn ℝ) := gammaOK_of_tag _ trivial (by intro x h; cases h)
 
 /-- so are `1/k`, `1/(rank+1)`, `σ²/c²`, `0` and every non-negative constant -/
 example : GammaOK (GammaFn.invK : GammaFn ℝ) ∧ GammaOK (GammaFn.rankDep : GammaFn ℝ)
     ∧ GammaOK (GammaFn.sq : GammaFn ℝ) ∧ GammaOK (GammaFn.zero : GammaFn ℝ)
     ∧ GammaOK (GammaFn.const (3 / 2) : GammaFn ℝ) :=
-  ⟨gammaOK_of_tag _ (by intro x h; cases h), gammaOK_of_tag _ (by intro x h; cases h),
-   gammaOK_of_tag _ (by intro x h; cases h), gammaOK_of_tag _ (by intro x h; cases h),
-   gammaOK_of_tag _ (by intro x h; cases h; norm_num)⟩
+  ⟨gammaOK_of_tag _ trivial (by intro x h; cases h), gammaOK_of_tag _ trivial (by intro x h; cases h),
+   gammaOK_of_tag _ trivial (by intro x h; cases h), gammaOK_of_tag _ trivial (by intro x h; cases h),
+   gammaOK_of_tag _ trivial (by intro x h; cases h; norm_num)⟩
 
 /-- `gammaVal .dflt` is `≥ 0` for `c ≥ 0` -/
-example (c : ℝ) (k : Nat) (mu s2 : ℝ) (r : Nat) (hc : 0 ≤ c) :
-    0 ≤ gammaVal GammaFn.dflt c k mu s2 r := by
+example (c : ℝ) (k : Nat) (mu s2 : ℝ) (team : List (Rating ℝ)) (r : Nat) (hc : 0 ≤ c) :
+    0 ≤ gammaVal GammaFn.dflt c k mu s2 team r := by
   simp only [gammaVal, sc_sqrt]; exact div_nonneg (Real.sqrt_nonneg _) hc
 
+/-- an arbitrary callback is admissible as soon as it is non-negative for `c, σ² ≥ 0`; e.g. the
+team-reading callback `√(Σ_team σ²)/c`, or "mean variance of the roster" -/
+example : GammaOK gammaTeamSigma ∧
+    GammaOK (.fn (fun _ _ _ s2 team _ => s2 / (team.length + 1)) : GammaFn ℝ) :=
+  ⟨gam_teamSigma_gammaOK, fun _ _ _ _ team _ _ hs => div_nonneg hs (by positivity)⟩
+
 /-- the unrestricted hypothesis "`0 ≤ gamma` for all `c`" would exclude the default callback -/
-example : ¬ ∀ (c : ℝ) (k : Nat) (mu s2 : ℝ) (r : Nat), 0 ≤ gammaVal GammaFn.dflt c k mu s2 r := by
+example : ¬ ∀ (c : ℝ) (k : Nat) (mu s2 : ℝ) (team : List (Rating ℝ)) (r : Nat),
+    0 ≤ gammaVal GammaFn.dflt c k mu s2 team r := by
   intro h
-  have := h (-1) 0 0 1 0
+  have := h (-1) 0 0 1 [] 0
   simp only [gammaVal, sc_sqrt, Real.sqrt_one] at this
   norm_num at this
 
@@ -451,7 +458,7 @@ example (L : Leaves ℝ) (teams : List (List (Rating ℝ))) (o : CallOpts ℝ) :
       teams
       (rateCore .PL L ⟨25 / 6, 1 / 10000, 25 / 300, false, .dflt⟩ leNat teams none o) :=
   C06_game .PL L _ leNat teams none o (by intro h; rcases h with h | h <;> cases h)
-    (by norm_num) (by norm_num) (gammaOK_of_tag _ (by intro x h; cases h))
+    (by norm_num) (by norm_num) (gammaOK_of_tag _ trivial (by intro x h; cases h))
     (by intro r h; cases h)
 
 /-- `C06_rate` instantiated for all five models at once, with leaves that satisfy `LeafFacts`,
@@ -467,7 +474,7 @@ example (K : Kind) (t1 t2 t3 : List (Rating ℝ)) (o : CallOpts ℝ) :
     (fun _ => { v_nonneg := fun x t => abs_nonneg _, v_ge := fun x t => le_abs_self _,
                 w_nonneg := fun _ _ => le_refl _, wt_nonneg := fun _ _ _ => le_refl _,
                 vt_mem := fun x t ht => ⟨by linarith, by linarith⟩, vt_odd := fun x t _ => rfl })
-    (by norm_num) (by norm_num) (gammaOK_of_tag _ (by intro x h; cases h))
+    (by norm_num) (by norm_num) (gammaOK_of_tag _ trivial (by intro x h; cases h))
     (by intro r h; rcases h with h | h <;> cases h; rfl)
 
 /-- an admissible step exists from any non-negative state (nobody plays) -/
